@@ -7,7 +7,8 @@ import (
 
 func main() {
 	runner.Main(map[string]runner.Entry{
-		"Check_Arith": {c00.Setup, c00.Check_Arith},
-		"Check_Bug":   {c00.Setup, c00.Check_Bug},
+		"Check_Arith":     {c00.Setup, c00.Check_Arith},
+		"Check_Bug":       {c00.Setup, c00.Check_Bug},
+		"Check_StdModels": {c00.Setup, c00.Check_StdModels},
 	})
 }
